@@ -420,6 +420,18 @@ func (c *c06ctx) ruleR2() {
 					if _, sf, _, ok := FieldOf(st.Val); ok && sf == f {
 						copied[f] = true
 					}
+					// the flag handed in as an argument of this call
+					if prm, isPrm := st.Val.(*ssa.Parameter); isPrm {
+						if cc := CallOf(in); cc != nil && len(cc.Args) == len(callee.Params) {
+							for k, pp := range callee.Params {
+								if pp == prm {
+									if _, sf, _, ok := FieldOf(cc.Args[k]); ok && sf == f {
+										copied[f] = true
+									}
+								}
+							}
+						}
+					}
 				})
 				var fl []string
 				for f := range flags {
